@@ -108,28 +108,61 @@ func hopByHopHeaderRemove(outreq, req *bfe_http.Request) {
 	// is modifying the same underlying map from req (shallow
 	// copied above) so we only copy it if necessary.
 	copiedHeaders := false
-	for _, h := range bfe_basic.HopHeaders {
-		hv := outreq.Header.Get(h)
-		if hv == "" {
-			continue
+	del := func(h string) {
+		if _, ok := outreq.Header[bfe_http.CanonicalHeaderKey(h)]; !ok {
+			return
 		}
-
-		if h == "Te" && hv == "trailers" {
-			// Issue 21096: tell backend applications that
-			// care about trailer support that we support
-			// trailers. (We do, but we don't go out of
-			// our way to advertise that unless the
-			// incoming client request thought it was
-			// worth mentioning)
-			continue
-		}
-
 		if !copiedHeaders {
 			outreq.Header = make(bfe_http.Header, len(req.Header))
 			bfe_http.CopyHeader(outreq.Header, req.Header)
 			copiedHeaders = true
 		}
 		outreq.Header.Del(h)
+	}
+
+	// RFC 7230, section 6.1: remove the header fields listed in
+	// the "Connection" header of the client.
+	for _, f := range req.Header["Connection"] {
+		for _, sf := range strings.Split(f, ",") {
+			if sf = strings.Trim(sf, " \t"); sf != "" {
+				del(sf)
+			}
+		}
+	}
+
+	for _, h := range bfe_basic.HopHeaders {
+		vv, ok := outreq.Header[h]
+		if !ok {
+			continue
+		}
+
+		if h == "Te" {
+			// Issue 21096: tell backend applications that
+			// care about trailer support that we support
+			// trailers. (We do, but we don't go out of
+			// our way to advertise that unless the
+			// incoming client request thought it was
+			// worth mentioning)
+			onlyTrailers, hasTrailers := true, false
+			for _, v := range vv {
+				if v != "trailers" {
+					onlyTrailers = false
+				}
+				if bfe_http.HasToken(v, "trailers") {
+					hasTrailers = true
+				}
+			}
+			if onlyTrailers {
+				continue
+			}
+			del(h)
+			if hasTrailers {
+				outreq.Header.Set("Te", "trailers")
+			}
+			continue
+		}
+
+		del(h)
 	}
 }
 
